@@ -100,6 +100,21 @@ class C07(scen.WorldProp):
                       "rhythm": scen.rhythm_cfg("wait", inertia=1.0, peal_speed=ps)}
                 yield {"k": "world", "scenario": sc, "stop": stop, "stop_t": stop_t, "t0": t0, "stop2_t": stop2_t}
                 continue
+            if kind == "plainhunt" and spec.get("start_row") is None and rng.random() < 0.15:
+                # a second touch in the same session, handbell style on: the first ends by itself at rounds (or is
+                # stood in changes); whatever ended it must not end the next one before it has begun
+                st = spec["stage"]
+                ev = [call(t0, LOOK_TO)]
+                first_len = (2 + 2 * st + 1) if rng.random() < 0.5 else rng.uniform(4, 7)
+                if first_len < 2 + 2 * st:
+                    ev.append(call(t0 + 3 + (first_len - 1.5) * row_t, STAND))
+                t1 = t0 + 3 + (first_len + 2.5) * row_t + rng.random()
+                ev += [[t1 - 0.3, "msg", {"m": "global_state", "state": [True] * N}], call(t1, LOOK_TO)]
+                sc = {"start": 1000.0, "end": t1 + 3 + 7 * row_t, "tower_size": N, "events": ev,
+                      "bot": scen.bot_cfg(spec, up_down_in=True, stop_at_rounds=True),
+                      "rhythm": scen.rhythm_cfg(rng.choice(["wait", "regression"]), peal_speed=ps)}
+                yield {"k": "world", "scenario": sc, "stop": None, "stop_t": None, "t0": t0, "stop2_t": None, "again": t1}
+                continue
             if rng.random() < 0.25:
                 # Wheatley joins a bigger tower, which is made smaller before the touch
                 N0 = N + rng.choice([1, 2, 4])
@@ -124,6 +139,12 @@ class C07(scen.WorldProp):
         for ev in sc["events"]:
             if isinstance(ev[2], dict) and ev[2].get("m") == "size_change":
                 N = ev[2]["size"]
+        if req.get("again") is not None:
+            later = [x for x in reply["strikes"] if scen.b2f(x[0]) >= req["again"]]
+            if len(later) < 4 * N:
+                return (f"second touch of the session (handbell style): after its Look To Wheatley rang {len(later) // N} "
+                        f"rows in {sc['end'] - req['again']:.1f} s - what ended the first touch has ended this one")
+            return None
         strikes = reply["strikes"]
         rows = scen.rows_from_strikes(reply, N)
         rounds = list(range(1, N + 1))
